@@ -35,6 +35,12 @@ CHECKS = {
             "(number layout from digits established by exact rational arithmetic).",
             "Trusted: exact-rational shortest-digit check in the harness (fractions); floats with <=15 digits reconstruct exactly; well-formed Unicode only.",
             "DESIGN.md §3.10"),
+    "C14": ("versionrouting", "TLA+ spec of version detection and the routing rule; TLC enumerates the complete (version argument x content shape x id class x allow_custom) matrix; every cell replayed through every entry point and validated by the trace spec",
+            "The rule 'outcome = direct parse with the named, else detected, version; identifiers a version does not admit are never accepted' is checked by TLC on the full matrix and the "
+            "matrix is replayed completely through 15 public entry points in every input form (dict, JSON text, lists, bundles, planted files), plus a sweep of every versionable built-in type x "
+            "identifier class on id and reference properties. The space is finite and covered completely at the abstraction chosen.",
+            "Trusted: the direct parse measured on the same content is the routing reference; identifier acceptance per version is frozen in the spec; MemorySink() read through _data.",
+            "DESIGN.md §3.8"),
 }
 
 NOT_YET = {}
